@@ -366,7 +366,7 @@ func TestReplay(t *testing.T) {
 }
 
 func TestRandom(t *testing.T) {
-	pbt.Check(t, 3000, 200000, func(rt *rapid.T) {
+	pbt.Check(t, 3000, 80000, func(rt *rapid.T) {
 		g := gen.Graph(rt, 6, 12)
 		steps := gen.Traversal(rt, gen.TravOpts{MaxLen: 10, RowCountHint: 5})
 		c := Case{Graph: g, Steps: steps, Arrival: gen.Arrival(rt, g)}
@@ -381,7 +381,7 @@ func TestRandom(t *testing.T) {
 }
 
 func TestIllTyped(t *testing.T) {
-	pbt.Check(t, 1500, 100000, func(rt *rapid.T) {
+	pbt.Check(t, 1500, 50000, func(rt *rapid.T) {
 		g := gen.Graph(rt, 4, 6)
 		base := gen.Traversal(rt, gen.TravOpts{MaxLen: 6, NoTerminal: true})
 		steps := gen.IllTyped(rt, base)
